@@ -4,37 +4,54 @@ CFG = {
                   "(ordered object members; a member name must be a string for the value to be JSON). Theorems, for every content and every behaviour of the "
                   "encoding/json parameters allowed by their premises: the marshalled value is well formed, unmarshalling it into a fresh container succeeds and "
                   "gives the same abstract contents (same sequence for lists / queues / stacks / ring buffer / linkedhashset / linkedhashmap, same bindings "
-                  "for hash, tree and bidi maps and sets), and the restored state satisfies the invariant the container's own property needs (arraylist: "
-                  "len = cap and size <= len, hence Add cannot index out of range; ring buffer: cursor/size relation; linked containers: table = ordering, "
-                  "no duplicates; bidi maps: bijection; tree-backed: sorted). The four defects are proved as _refuted statements about the pre-repair code "
-                  "(D15 unclipped slice, D20 ring encoding, D22 unquoted member names, D23 byte-offset order recovery). Partial where stated in the note. "
-                  "Model and code are tied on every run: real bytes (json.Valid, parsed), a fresh and a non-empty decode target, representation details "
-                  "through verif accessors, and 3-8 further operations on the restored container judged against a reference inside Coq.",
+                  "for hash, tree and bidi maps and sets), and the restored container OBEYS ITS OWN PROPERTY UNDER EVERY FURTHER OPERATION LIST "
+                  "(C15_restored_obeys_<family>, 19 theorems): for every content reached by any operation list of the container's own model - C07 array list, doubly / "
+                  "singly linked list; C08 array / linked queue and stack, binary heap = priority queue, circular buffer; C09 hashmap, hashset, linkedhashmap, "
+                  "linkedhashset, hashbidimap; C01 red-black tree, AVL tree, B-tree of every order >= 3, treemap, treeset, treebidimap (the real tree models) - the state "
+                  "that UnmarshalJSON builds from MarshalJSON's output is in that property's refinement relation with the source's abstract contents, so every further "
+                  "operation list gives the outputs of the reference specification started from those contents (composition of the C15 round trip with the step-refinement "
+                  "lemmas of C07/C08/C09/C01; for the heap: the decoded array satisfies C08's heap order because it is the encoded array, every further run is accepted by "
+                  "the multiset discipline and keeps the heap order; the tree decoders re-insert through Put, so the restored tree is a state C01/C02 speak about; "
+                  "C15_restored_tree_invariants: the restored red-black / AVL / B-tree is literally a reachable state - target's operations, Clear, the Puts - so C02's shape invariants hold of it; "
+                  "C15_tree_decoders_agree: on every document the tree-level decoders and the sorted-insertion-table decoder that the correspondence check evaluates agree). "
+                  "The four defects are proved as _refuted statements about the pre-repair code (D15 unclipped slice, D20 ring encoding, D22 unquoted member names, "
+                  "D23 byte-offset order recovery). Model and code are tied on every run: real bytes (json.Valid, parsed), a fresh and a non-empty decode target, "
+                  "representation details through verif accessors, and 3-8 further operations on the restored container judged against a reference inside Coq.",
     "level_note": "encoding/json (text <-> value: escaping, number formatting, map-key ordering, slice growth) and banytostring are NOT modelled: they are parameters "
                   "of the model, premises of the theorems (codec laws, permutation laws, grow n >= n) and are recorded from the real library for every case. "
-                  "Containers owned by other properties are modelled abstractly by their contents plus the representation detail the JSON code touches: "
-                  "red-black / AVL / B-tree, treemap, treeset, treebidimap as sorted association lists (C01), linked lists and the list-backed queues/stacks as "
-                  "sequences (C07/C08), binary heap and priority queue as the array list they wrap (heap order of the restored array follows from the array "
-                  "being identical; it is exercised by the Pops of the suffix, not proved here). 'Obeys its own property under further operations' is proved "
-                  "only as 'the restored state satisfies the invariant from which the other properties' theorems start' (plus Add-does-not-panic for "
-                  "arraylist); the further operations themselves are exercised by the harness. Ring buffers are exercised without zero-valued elements "
-                  "(D19, property C08, is not repaired in this tree). bslice / bmap / bcache Marshal/Unmarshal are one-line delegations to encoding/json and "
-                  "are only exercised (bcache values appear wrapped in its Iterator struct). Strings that are not valid UTF-8 are outside the codec premise "
-                  "(encoding/json replaces the bytes).",
+                  "The composition theorems are stated on the other properties' models and inherit their trust: element type int for C07/C08 (the JSON model itself is "
+                  "polymorphic), comparator laws plus cmp a b = 0 -> a = b for the tree-backed containers (the JSON object is keyed by the key's text), the ring as "
+                  "repaired by 0021 (no zero-value test in Dequeue) decoded into a fresh buffer of the same capacity (UnmarshalJSON enqueues, it does not clear), the "
+                  "B-tree on operation lists without Floor/Ceiling. The bridges between the JSON view and those models are field renamings (al_json/al_of_json, "
+                  "cb_json/cb_of_json) or the code path itself (Clear(); Add / Put of the decoded values on the C07 / C01 model). The correspondence check still evaluates "
+                  "the per-container abstractions of C15/Model.v (tree-backed containers as sorted-insertion tables - proved to agree with the tree-level decoders on every "
+                  "document, C15_tree_decoders_agree, and with the red-black treeset / treebidimap on every operation list, C09_tree_abstract_agrees) and judges the suffix "
+                  "operations against the reference containers of C15/Spec.v. Ring buffers are exercised without zero-valued elements (the harness numbers the Go zero "
+                  "value -1). bslice / bmap / bcache Marshal/Unmarshal are one-line delegations to encoding/json and are only exercised (bcache values appear wrapped "
+                  "in its Iterator struct). Strings that are not valid UTF-8 are outside the codec premise (encoding/json replaces the bytes).",
     "harness": "c15",
     "theorems": [("C15.Props", [
         "C15_linked_lists", "C15_arraylist", "C15_arraylist_usable", "C15_arraylist_unclipped_refuted", "C15_ring", "C15_ring_backing_refuted",
         "C15_sets", "C15_linked_set", "C15_maps", "C15_tree_sorted", "C15_bidi", "C15_linkedmap",
-        "C15_linkedmap_unquoted_refuted", "C15_linkedmap_bytesindex_refuted"])],
+        "C15_linkedmap_unquoted_refuted", "C15_linkedmap_bytesindex_refuted"]),
+        ("C15.PropsComposeSeq", [
+        "C15_restored_obeys_arraylist", "C15_restored_obeys_arrayqueue", "C15_restored_obeys_arraystack", "C15_restored_obeys_heap",
+        "C15_restored_obeys_linkedlist", "C15_restored_obeys_linkedlistqueue", "C15_restored_obeys_linkedliststack", "C15_restored_obeys_ring"]),
+        ("C15.PropsComposeMap", [
+        "C15_restored_obeys_hashset", "C15_restored_obeys_linkedhashset", "C15_restored_obeys_hashmap", "C15_restored_obeys_hashbidimap",
+        "C15_restored_obeys_linkedhashmap", "C15_restored_obeys_rbtree", "C15_restored_obeys_treemap", "C15_restored_obeys_avltree",
+        "C15_restored_obeys_btree", "C15_tree_decoders_agree", "C15_restored_tree_invariants", "C15_restored_obeys_treeset", "C15_restored_obeys_treebidimap"])],
     "trusted": [
         "encoding/json and banytostring as a codec: dec (enc x) = Some x, member-name text decodes back to the key, a Go map is written / ranged over in some "
         "permutation, a decoded slice has capacity >= its length, bcomparator.Sort returns a sorted permutation (premises of the theorems; the harness records the "
         "codec's actual outputs per case and Check.v verifies that the recorded tables are injective)",
         "verif accessors VerifLenCap (arraylist), VerifRing (circularbuffer), VerifNewSafe (hashset) - add-only files, build tag verif",
         "the C09 models of hash / linked / bidi containers, which this property reuses",
+        "the models and refinement lemmas of C07 (lists), C08 (queues, stacks, heap, ring), C09 and C01 (red-black / AVL / B-tree, treemap, treeset, treebidimap) that the "
+        "C15_restored_obeys_* theorems compose with; those models are tied to the code by their own properties' checks",
     ],
-    "modelled": ["red-black tree, AVL tree, B-tree (abstract sorted association list; C01)", "doubly / singly linked list pointer structure (C07)",
-                 "heap order inside binaryheap / priorityqueue (C08)", "sync.Mutex of the Safe* wrappers", "bcache expiry (entries are stored without deadline)"],
+    "modelled": ["sync.Mutex of the Safe* wrappers", "bcache expiry (entries are stored without deadline)",
+                 "the iterator walk of the tree MarshalJSON methods (taken to be the in-order enumeration that Keys()/Values() return; iterators are C14)"],
     "assumptions": ["element / key / value types int and string with valid UTF-8", "decode target of the same type; a fresh one for the property, a non-empty one for the model tie"],
     "widen_runs": 1,
 }
